@@ -18,7 +18,9 @@ RULE = (
     "golden ids: preimages of kb-2..kb+1 for every boundary of 39 fixed vectors and of 0,1,2,2^32-1.. through the "
     "unmodified pipeline in three key shapes; (c) injected positions for random vectors (1..64 groups, ints to 1e9, "
     "decimals 1e-9..1e9, zeros anywhere): every boundary +-2, 0, 2^32-1, one interior point per group spanning >= 3 "
-    "grid points, via the evaluator and via deterministic_choice directly. distinct_nontrivial = distinct (vector, k) "
+    "grid points, via the evaluator and via deterministic_choice directly; (d) return statements that repeat a group "
+    "literal or list literals that compare equal (1, 1.0): the value returned must belong to the position owning the "
+    "segment. distinct_nontrivial = distinct (vector, k) "
     "with k within 2 grid points of a boundary or range end, or a vector containing a zero / sub-grid weight."
 )
 ASSUMPTIONS = [
@@ -171,6 +173,47 @@ def layer_injected(ctx, im, vec):
             ctx.count("injected/groups-with-interior-point", len(interior))
 
 
+def layer_repeated_labels(ctx, im, vec, labels):
+    """(d) a return statement may name the same group literal more than once (or literals that merely compare equal,
+    1 and 1.0): each *position* in the statement still owns its own segment of the hash space"""
+    from pyabv.gen.literals import render_lit
+    from pyabv.props.common import same_value
+
+    part = bucket.Partition([frac(w) for w in vec])
+    groups = ", ".join(f"{render_lit(lb)} weighted {w}" for lb, w in zip(labels, vec))
+    text = f'def rep {{ salt: "rep" splitters: uid return {groups} }}'
+    c = im.construct(text)
+    if c[0] != "ok":
+        ctx.violation("construct-failed", dict(text=text, error=c[1:]), mechanism="C03/construct-failed")
+        return
+
+    def check(k, out, how):
+        ctx.evaluated()
+        ctx.nontrivial(text, k)
+        ok = out[0] == "ok" and any(same_value(out[1], labels[i].value) for i in part.allowed(k))
+        if not ok:
+            ctx.violation("repeated-label-segment-moved", dict(text=text, weights=vec, k=k, got=out, exact_index=part.exact(k),
+                                                              expected=[labels[i].value for i in sorted(part.allowed(k))], how=how),
+                          mechanism="C03/outside-partition")
+        return ok
+
+    for i in range(300):
+        uid = f"r{i}" if i % 2 else i
+        if not check(bucket.position("rep", ["uid"], {"uid": uid}), im.call(c[1], {"uid": uid}), dict(uid=uid)):
+            return
+    ks, _ = positions_for(part, ctx.rnd)
+    with ProbaProbe() as probe:
+        for k in ks:
+            probe.inject = k / GRID
+            before = probe.calls
+            out = im.call(c[1], {"uid": "x"})
+            if probe.calls == before:
+                break
+            if not check(k, out, dict(inject=k)):
+                return
+    ctx.count("repeated-labels/statements-ok")
+
+
 def run(ctx):
     im = impl()
     rnd = ctx.rnd
@@ -195,6 +238,25 @@ def run(ctx):
         layer_injected(ctx, im, vec)
         if i < 2:
             ctx.sample(dict(layer="injected", weights=vec))
+    # (d) repeated / equal-comparing labels
+    from pyabv.ref.parse import Lit
+
+    pools = [
+        [Lit("A", "A"), Lit("B", "B"), Lit("A", "A")],
+        [Lit("A", "A"), Lit("A", "A"), Lit("B", "B"), Lit("A", "A"), Lit("B", "B")],
+        [Lit(1, "1"), Lit(1.0, "1.0"), Lit("1", "1")],
+        [Lit(1.0, "1.0"), Lit(2, "2"), Lit(1, "1"), Lit(2.0, "2.0")],
+        [Lit(0, "0"), Lit(0.0, "0.0"), Lit(-0.0, "-0.0")],
+        [Lit("x", "x")] * 4,
+        [Lit(True and 1, "1"), Lit("a", "a"), Lit(1, "1")],
+    ]
+    nrep = ctx.n(40, 3000)
+    for i in range(nrep):
+        labels = pools[i % len(pools)] if i < 2 * len(pools) else [rnd.choice(rnd.choice(pools)) for _ in range(rnd.randint(2, 8))]
+        vec = [rnd.choice(["1", "2", "3", "0", "0.5", "10", "2.5"]) for _ in labels]
+        if all(frac(w) == 0 for w in vec):
+            vec[0] = "1"
+        layer_repeated_labels(ctx, im, vec, labels)
     ctx.sample(dict(layer="golden", example=dict(weights=["3.4", "5", "3"], text=program_text(["3.4", "5", "3"]))))
 
 
